@@ -22,7 +22,7 @@ SCALES = [2.0, 3.0, 0.5, 1.5, 10.0, 0.3048, 1000.0, 7.0, 0.01, 42.0, 1.0]
 PREF = ["k", "m", "M", "da", "c", "µ", "u", "G"]
 SYSTEMS = ["mks", "cgs", "imperial", "galactic", "solar", None]
 VALUES = [1.0, 2.0, 0.25, 3.5, 10.0, -1.5]
-ROUTES = ["plain", "plain", "empty", "lut", "json", "deepcopy", "pickle", "pickle_pair", "unitcopy_deep", "usys"]
+ROUTES = ["plain", "plain", "empty", "lut", "json", "deepcopy", "pickle", "pickle_pair", "unitcopy_deep", "usys", "hdf5"]
 
 _TOKEN = re.compile(r"[^\W\d]\w*", re.UNICODE)
 
@@ -117,7 +117,7 @@ class Gen:
     def g_new_node(self, w, route=None, src=None):
         r = self.rng
         op = {"k": "new_node", "route": route or r.choice(self.cfg["routes"])}
-        if op["route"] in ("lut", "json", "deepcopy", "pickle", "pickle_pair", "unitcopy_deep"):
+        if op["route"] in ("lut", "json", "deepcopy", "pickle", "pickle_pair", "unitcopy_deep", "hdf5"):
             op["src"] = src if src is not None else r.randrange(len(w.nodes))
         if op["route"] == "usys":
             op["usys"] = r.choice(["cgs", "mks", "imperial", "galactic"])
@@ -262,7 +262,7 @@ class Gen:
             return {"k": "clear_sympy"}
         if kind == "alias_handle":
             return {"k": "alias_handle", "node": self.pick_node(w), "via": r.choice(["copy", "unitcopy"])}
-        return {"k": "restart", "node": self.pick_node(w, custom=True) or 0, "route": r.choice(["json", "pickle", "deepcopy"])}
+        return {"k": "restart", "node": self.pick_node(w, custom=True) or 0, "route": r.choice(["json", "pickle", "deepcopy", "hdf5"])}
 
     # -- scripts (biased placement)
     def s_stale(self, w):
@@ -345,7 +345,7 @@ class Gen:
         na = len(w.nodes) - 1
         b = dict(a)
         if r.random() < 0.3:
-            b = self.g_new_node(w, route=r.choice(["json", "deepcopy", "pickle"]), src=na)
+            b = self.g_new_node(w, route=r.choice(["json", "deepcopy", "pickle", "hdf5"]), src=na)
         yield b
         nb = len(w.nodes) - 1
         sym = r.choice(self.syms)
@@ -484,7 +484,7 @@ class Gen:
         if sym not in w.nodes[ni % len(w.nodes)].model:
             yield self.g_add(w, ni, sym)
         yield self.g_probe_string(w, ni, sym=sym)
-        yield {"k": "restart", "node": ni, "route": r.choice(["json", "pickle", "deepcopy"])}
+        yield {"k": "restart", "node": ni, "route": r.choice(["json", "pickle", "deepcopy", "hdf5"])}
         yield self.g_probe_string(w, ni, sym=sym)
         yield self.g_edit(w, ni, sym)
         yield self.g_probe_string(w, ni, sym=sym)
@@ -558,7 +558,7 @@ class Gen:
         """A private copy of the DEFAULT registry (deep copy / unpickled / JSON): edits and definitions made
         through it must stay there."""
         r = self.rng
-        yield self.g_new_node(w, route=r.choice(["deepcopy", "unitcopy_deep", "pickle", "json", "pickle_pair"]), src=0)
+        yield self.g_new_node(w, route=r.choice(["deepcopy", "unitcopy_deep", "pickle", "json", "pickle_pair", "hdf5"]), src=0)
         ni = len(w.nodes) - 1
         sym = r.choice(self.syms)
         kind = r.choice(["define", "define", "add", "modify_default_sym"])
@@ -861,6 +861,9 @@ class Sim:
         elif route == "unitcopy_deep":
             reg = uo.Unit("", registry=src.reg).copy(deep=True).registry
             self.flags["cross_or_restore"] = True
+        elif route == "hdf5":
+            reg = self._via_hdf5(src.reg, op)
+            self.flags["cross_or_restore"] = True
         else:
             raise HarnessError(route)
         # contents of a new node = whatever its table holds now (C11, not
@@ -871,6 +874,28 @@ class Sim:
         if route == "pickle_pair" and len(w.nodes) < 6:
             w.nodes.append(rw.Node(len(w.nodes), "custom", extra_reg, dict(extra_reg.lut), extra_reg.unit_system.name))
         return {"n": len(model), "usys": node.usys}
+
+    def _via_hdf5(self, reg, op):
+        """write_hdf5 / from_hdf5 (unyt's real code) against the in-process h5py stand-in: the registry of the array
+        that comes back.  One "file" per step; group / dataset names and the caller's info dict vary with the step."""
+        unyt, lt, dims, uo, ur, us = rw._U()
+        from . import fakeh5
+
+        fakeh5.install()
+        n = self.step_no
+        fn = "sim-%d.h5" % n
+        kw = {}
+        if n % 2:
+            kw["dataset_name"] = "d%d" % n
+        if n % 3 == 0:
+            kw["group_name"] = "g%d" % n
+        a = unyt.unyt_array([1.0, 2.0], "", registry=reg)
+        wkw = dict(kw)
+        if n % 5 == 0:
+            wkw["info"] = {"note": "x"}
+        a.write_hdf5(fn, **wkw)
+        self.w.probe("hdf5_stub_roundtrip")
+        return unyt.unyt_array.from_hdf5(fn, **kw).units.registry
 
     def do_alias(self, op):
         unyt, lt, dims, uo, ur, us = rw._U()
@@ -896,6 +921,8 @@ class Sim:
         elif route == "pickle":
             q = unyt.unyt_quantity(1.0, "", registry=node.reg)
             reg = pickle.loads(pickle.dumps(q)).units.registry
+        elif route == "hdf5":
+            reg = self._via_hdf5(node.reg, op)
         else:
             reg = copy.deepcopy(node.reg)
         w.drop_node_objects(node)
